@@ -308,6 +308,10 @@ fn apply_op<T: Mk>(ps: &PlainSeg<T>, op: &Value, leaf_d: &dyn Fn(u64) -> u64) ->
 			s.leaf_pos.remove(k - 1);
 			s.leaf_data.remove(k - 1);
 		}
+		"omit_pair" => {
+			s.leaf_pos.drain(k - 1..k + 1);
+			s.leaf_data.drain(k - 1..k + 1);
+		}
 		"hash" => s.hashes[k - 1] = junk_hash(),
 		"drop_hash" => {
 			s.hash_pos.remove(k - 1);
